@@ -84,11 +84,16 @@ func cases(run *vf.Run) ([]json.RawMessage, error) {
 		rng := rand.New(rand.NewSource(vf.SubSeed(run.Seed, "C16-demo")))
 		out = append(out, vf.Spec(histSpec{Kind: "hist", Idx: -1, Seed: vf.SubSeed(run.Seed, "C16-demo-case"), IntervalMs: 10, Cfg: pickConfig(rng, 2), Demo: "F4"}))
 	}
+	// demonstration history for multi-level gap bridging (pinned second)
+	{
+		rng := rand.New(rand.NewSource(vf.SubSeed(run.Seed, "C16-demo2")))
+		out = append(out, vf.Spec(histSpec{Kind: "hist", Idx: -2, Seed: vf.SubSeed(run.Seed, "C16-demo2-case"), IntervalMs: 10, Cfg: pickConfig(rng, 2), Demo: "bridge2"}))
+	}
 	// kill campaigns first: they are the long cases
 	for sc := 0; sc < scns; sc++ {
 		seed := vf.SubSeed(run.Seed, "C16-scenario", sc)
 		for part := 0; part < parts; part++ {
-			out = append(out, vf.Spec(killSpec{Kind: "kill", Scn: sc + int(uint64(run.Seed)%15), Seed: seed, Stages: stages, Part: part, Parts: parts, Sample: sample, Double: double, Windows: part == 0, InprocRestart: inproc}))
+			out = append(out, vf.Spec(killSpec{Kind: "kill", Scn: sc + int(uint64(run.Seed)%15), Seed: seed, Stages: stages, Part: part, Parts: parts, Sample: sample, Double: double, Windows: part == 0, InprocRestart: inproc, Deep: sc%2 == 1}))
 		}
 	}
 	for i := 0; i < nHist; i++ {
